@@ -411,6 +411,22 @@ def execPl (k : Nat) (oi : Nat) (name : String) : P String := do
   | "pl_unupread" => dropKind .pu (PlRwLock.unlockUpgradable rL)
   | other => K.panic s!"model: unknown op {other}"
 
+/-- the wait loop of `thread::JoinHandle::join` (F29 repaired in /repo c6d7a0a):
+`loop { if !target.set_waiter(me) { break }; me.block(false); thread::switch() }` — the target is looked at again after
+every wake-up, so an `unblock(me)` issued by anything else (a semaphore grant to an `Acquire` this task polled) sends
+the joiner back to sleep instead of letting `join` return early -/
+def joinWait (tid : Nat) : Nat → P Unit
+  | 0 => K.panic "model: join loop fuel exhausted"
+  | fuel + 1 => do
+    let shouldBlock ← K.setWaiter tid
+    if shouldBlock then do
+      K.block false
+      K.switch
+      joinWait tid fuel
+    else pure ()
+
+def joinFuel : Nat := 100000
+
 /-- one IR operation of body `k`; the result string is what the harness logs -/
 def execOp (ir : IR) (k : Nat) (pc : Nat) (op : Op) : P String := do
   let oi := ir.objIndex (op.arg 0)
@@ -433,8 +449,7 @@ def execOp (ir : IR) (k : Nat) (pc : Nat) (op : Op) : P String := do
         K.setU { h with handles := h.handles.set b false }
         let fin ← K.isFinished tid
         if fin then K.switch else pure ()
-        let shouldBlock ← K.setWaiter tid
-        if shouldBlock then do K.block false; K.switch else pure ()
+        joinWait tid joinFuel
         let c ← K.clockOf tid
         K.updateClock c
         pure "ok"
